@@ -67,7 +67,9 @@ AllKeys == << OctKey(32, "a", NONE, NONE), OctKey(64, "a", NONE, NONE), AsymKey(
 Specs(p) == << Spec("HS256", 0, 0, 1), Spec("HS512", 1, 1, 1), Spec("RS256", 2, 3, 1), Spec("PS256", 2, 3, 0),
                Spec("ES256", 4, 5, 0), Spec("ES384", 6, 6, 0), Spec("ES512", 7, 7, 0), Spec("EdDSA", 8, 9, 1), Spec("EdDSA", 10, 10, 1),
                Spec("HS256", 0, 0, 1), Spec("RS256", 2, 3, 1), Spec("ES256", 4, 5, 0) >>
-             \o (IF p = "openssl" THEN << Spec("ES256K", 11, 11, 0) >> ELSE <<>>)
+             \* ... and threads whose every signing request the provider REFUSES (ES256K under GnuTLS, ES256 with an
+             \* Ed25519 key under either): a refusal in one thread is nobody else's business
+             \o << Spec("ES256K", 11, 11, 0), Spec("ES256", 8, 9, 0) >>
 Iters == IF Tier = "quick" THEN 150 ELSE 2000
 Kid(i) == CASE i = 1 -> "k1" [] i = 2 -> "k2" [] i = 3 -> "k3" [] i = 4 -> "k4" [] i = 5 -> "k5" [] i = 6 -> "k6" [] i = 7 -> "k7"
             [] i = 8 -> "k8" [] i = 9 -> "k9" [] i = 10 -> "k10" [] i = 11 -> "k11" [] OTHER -> "k12"
